@@ -517,6 +517,9 @@ DB = "nostr_relay/storage/db.py"
 VAL = "nostr_relay/validators.py"
 
 MUTANTS = [
+] + [
+    M("c03-" + m.id, m.rel, m.old, m.new, "C03.canonical", m.where, False, m.count) for m in __import__("sa.props.c04", fromlist=["MUTANTS"]).MUTANTS if m.expect == "C04.canonical"
+] + [
     M("c03-stored-content-stripped", DB, "                                content=event.content,", "                                content=event.content.strip(),", "C03.stored"),
     M("c03-stored-kv-lower", KV, "        event.content,\n        event.tags,", "        event.content.replace(\"\\x00\", \"\"),\n        event.tags,", "C03.stored"),
     M("c03-id-compare-dropped", VAL,
